@@ -307,6 +307,16 @@ def falsify_registry(chk, R):
         got = T._tags[name].get_priority()
         if got != REF_LETTER[s][c]:
             return {'kind': 'priority', 'input': f'{name} severity={s} certainty={c}', 'observed': got, 'expected': REF_LETTER[s][c]}
+    # unknown tag names are refused, registered ones print exactly one line
+    for name in ('no-such-tag', '', 'Ancient-Date', 'ancient-date '):
+        ck = R.checker('x.po')
+        try:
+            out = R.tag_out(ck, name, ['x'])
+        except Exception as exc:
+            if type(exc).__name__ != 'DataIntegrityError':
+                return {'kind': 'unknown-tag', 'input': repr(name), 'observed': repr(exc), 'expected': 'DataIntegrityError'}
+        else:
+            return {'kind': 'unknown-tag', 'input': repr(name), 'observed': 'printed ' + ascii(out), 'expected': 'DataIntegrityError'}
     order = 'PIWE'
     sev = sorted(T.severities, key=lambda x: x.value)
     cer = sorted(T.certainties, key=lambda x: x.value)
